@@ -272,6 +272,7 @@ class Injector:
         if self.target == (kind, self.counts[kind]):
             self.exc = Injected("%s#%d" % (kind, self.counts[kind]))
             self.exc.in_outermost = under_extract_outermost()
+            self.exc.om_id = self.om_active[-1] if self.om_active else None
             self.fired = (kind, self.counts[kind])
             raise self.exc
 
@@ -281,6 +282,25 @@ class Injector:
                          ctx=_extract.contexts_active_in_frame, ectx=_extract.elaborate_context,
                          uctx=_extract.unwrap_context, fill=_extract.fill_context, child=_extract.extract_child)
         self.child_stacks = []
+        self.orig["outermost"] = _extract.extract_outermost
+        self.om_active = []
+        self.om_outcome = {}
+        self.om_count = 0
+
+        def outermost(stackitem, **kw):
+            inj.om_count += 1
+            cid = inj.om_count
+            inj.om_active.append(cid)
+            try:
+                res = inj.orig["outermost"](stackitem, **kw)
+                inj.om_outcome[cid] = "returned"
+                return res
+            except BaseException:
+                inj.om_outcome[cid] = "raised"
+                raise
+            finally:
+                inj.om_active.pop()
+        _extract.extract_outermost = outermost
         self.orig["ucg"] = _glue.unwrap_context_generator
         _glue.unwrap_context_generator = HookProxy(self, "unwrap_context_generator", self.orig["ucg"])
         o = self.orig
@@ -344,6 +364,7 @@ class Injector:
         _extract.fill_context = o["fill"]
         _extract.extract_child = o["child"]
         _glue.unwrap_context_generator = o["ucg"]
+        _extract.extract_outermost = o["outermost"]
 
 
 def all_stacks(st, acc=None):
@@ -413,7 +434,7 @@ def run_one(name, mk, inj, rec, max_k):
                 continue  # call pattern changed after an earlier ... (cannot happen for a single fault)
             res["injections"] += 1
             where = [s for s in all_stacks(st) if any(e is inj.exc for e in errors_of(s))]
-            if len(where) == 0 and inj.exc.in_outermost:
+            if len(where) == 0 and inj.exc.in_outermost and inj.om_outcome.get(inj.exc.om_id) == "returned":
                 res["f14"].append("%s" % (tgt,))
             elif len(where) != 1:
                 res["bad"].append("%s: injected exception found in %d Stack errors" % (tgt, len(where)))
@@ -453,6 +474,7 @@ def run_one(name, mk, inj, rec, max_k):
                 if (kind, inj.counts[kind]) in _t:
                     e = Injected("%s#%d" % (kind, inj.counts[kind]))
                     e.in_outermost = under_extract_outermost()
+                    e.om_id = inj.om_active[-1] if inj.om_active else None
                     _fired.append(e)
                     raise e
             inj.tick = tick
@@ -465,7 +487,7 @@ def run_one(name, mk, inj, rec, max_k):
                     if not any(e is x for x in found):
                         # independent signature of F13: the exception WAS recorded, in a nested Stack that a later
                         # fault in an enclosing hook threw away together with the sub-tree under construction
-                        if e.in_outermost:
+                        if e.in_outermost and inj.om_outcome.get(e.om_id) == "returned":
                             res["f14"].append("pair %s+%s" % (a, b))
                         elif any(e is x for cs in inj.child_stacks for x in errors_of(cs)):
                             res["f13"].append("pair %s+%s" % (a, b))
